@@ -1,5 +1,6 @@
 import NeumannModel.RelTx.CapLemmas
 import NeumannModel.RelTx.CapCount
+import NeumannModel.RelTx.CapCongr
 /-
   C09 — sixth module of property theorems (ONLY theorems and their non-vacuity examples): statements that
   fail PART-WAY through a row, and the rollback after them (`CapModel.lean`).
@@ -37,7 +38,7 @@ theorem failed_update_is_undone_by_rollback (cap : Nat) (s : State) (A t : Nat) 
     let s' := (txUpdateC cap s A t cond upd).1
     ∃ (T'' X : Table) (u : Undo),
       s'.txs A = some { x with undo := x.undo ++ [u] } ∧
-      s'.tables t = some X ∧ X.rows = T.rows ∧ (∀ k, k ≠ t → s'.tables k = s.tables k) ∧
+      s'.tables t = some X ∧ X.rows = T.rows ∧ (∀ k, k ≠ t → s'.tables k = s.tables k) ∧ s'.ntables = s.ntables ∧
       rollbackC cap s' A =
         (setTx (release (x.undo.reverse.foldl (applyUndoC cap) (setTable s' t T'', 0)).1 A) A none,
          if (x.undo.reverse.foldl (applyUndoC cap) (setTable s' t T'', 0)).2 = 0 then .ok else .err .rollbackFailed) ∧
@@ -119,7 +120,8 @@ theorem failed_update_is_undone_by_rollback (cap : Nat) (s : State) (A t : Nat) 
     rw [hgate, htx]
     dsimp only
     rw [List.reverse_append, List.reverse_singleton, List.singleton_append, List.foldl_cons, hfirst]
-  refine ⟨T'', _, _, htx, htab, hXrows, hothers, hroll, h1, h2, h3, h4, h5, h6, ?_, ?_, ?_⟩
+  have hnt : s'.ntables = s.ntables := by rw [hs']; exact recordUndo_ntables _ _ _
+  refine ⟨T'', _, _, htx, htab, hXrows, hothers, hnt, hroll, h1, h2, h3, h4, h5, h6, ?_, ?_, ?_⟩
   · intro e
     have h6' : ExactOn T.rows T.hashOn T''.hashE := by
       have := h6.1; rw [h1, h4] at this; exact this
@@ -152,6 +154,75 @@ example : (runC 2 c0 (setup ++ [.begin])).tables 0 = some tab3 ∧
   | 0, _, h => cases h; rfl
   | 1, _, h => cases h; rfl
   | 2, _, h => cases h; rfl
+
+/-- THE SAME, AS ONE EQUATION OF OUTCOMES.  Every state, every cap, every open transaction A with ANY undo log, every
+    `tx_update` of A refused at the cap (hypotheses as above): A's rollback AFTER the refused statement answers what A's
+    rollback INSTEAD of the statement would have answered (`Ok`, or `RollbackFailed` for the same entries of the earlier
+    log), and leaves every table as that rollback would have left it — the same table names, and for every table the same
+    rows, the same index configuration, the same hash and b-tree entries up to their order in the lists (`TabEq`), hence the
+    same answer to every `select`, through an index or by scan.  All-or-nothing does not see the refused statement. -/
+theorem rollback_after_refused_update_is_rollback_without_it (cap : Nat) (s : State) (A t : Nat) (cond : Cond)
+    (upd : List (Nat × Val)) (T : Table) (x : Tx)
+    (hT : s.tables t = some T) (hx : s.txs A = some x) (hex : IdxExact T)
+    (hwf : ∀ (i : Nat) (r : Row), T.rows[i]? = some r → r.vals.length = T.ncols)
+    (hcap : otherKeys s t + keyCount T.btreeE ≤ cap) (hone : OneBt T upd)
+    (hfail : (txUpdateC cap s A t cond upd).2 = .tooLarge) :
+    let s' := (txUpdateC cap s A t cond upd).1
+    (rollbackC cap s' A).2 = (rollbackC cap s A).2 ∧
+    TablesEq (rollbackC cap s A).1 (rollbackC cap s' A).1 ∧
+    (∀ k T0 T1, (rollbackC cap s A).1.tables k = some T0 → (rollbackC cap s' A).1.tables k = some T1 →
+      T1.rows = T0.rows ∧ ∀ c, select T1 c = select T0 c) := by
+  intro s'
+  obtain ⟨T'', X, u, _, _, _, hothers, hnt, hroll, h1, h2, h3, h4, h5, h6, h7, h8, _⟩ :=
+    failed_update_is_undone_by_rollback cap s A t cond upd T x hT hx hex hwf hcap hone hfail
+  obtain ⟨_, _, _, hg, _, _, _, _, _, _⟩ := txUpdateC_refused hT hfail
+  -- the rollback without the statement
+  have hplain : rollbackC cap s A =
+      (setTx (release (x.undo.reverse.foldl (applyUndoC cap) (s, 0)).1 A) A none,
+       if (x.undo.reverse.foldl (applyUndoC cap) (s, 0)).2 = 0 then .ok else .err .rollbackFailed) := by
+    unfold rollbackC
+    rw [hg, hx]
+  -- the tables the two rollbacks start from agree up to entry order
+  have hstart : TablesEq s (setTable s' t T'') := by
+    refine ⟨by rw [← hnt]; rfl, ?_⟩
+    intro k
+    by_cases hk : k = t
+    · subst hk
+      right
+      refine ⟨T, T'', hT, by rw [setTable_tables, if_pos rfl], ⟨h2, h3, h1, h4, h5, ?_, ?_⟩⟩
+      · exact (List.perm_ext_iff_of_nodup h6.1.1 hex.1.1).mpr h7
+      · exact (List.perm_ext_iff_of_nodup h6.2.1 hex.2.1).mpr h8
+    · have he : (setTable s' t T'').tables k = s.tables k := by
+        rw [setTable_tables, if_neg hk]; exact hothers k hk
+      cases hsk : s.tables k with
+      | none => left; exact ⟨rfl, by rw [he, hsk]⟩
+      | some T0 => right; exact ⟨T0, T0, rfl, by rw [he, hsk], tabEq_refl T0⟩
+  obtain ⟨herr, hfin⟩ := foldl_applyUndoC_congr (cap := cap) x.undo.reverse (n := 0) hstart
+  have hfinal : TablesEq (rollbackC cap s A).1 (rollbackC cap s' A).1 := by
+    rw [hplain, hroll]
+    exact ⟨hfin.ntables, fun k => by
+      have := hfin.tabs k
+      simpa only [setTx_tables, release_tables] using this⟩
+  refine ⟨?_, hfinal, ?_⟩
+  · rw [hplain, hroll]
+    dsimp only
+    rw [herr]
+  · intro k T0 T1 h0 h1'
+    rcases hfinal.tabs k with ⟨hn, _⟩ | ⟨Ta, Tb, ha, hb, hab⟩
+    · rw [hn] at h0; cases h0
+    · rw [ha] at h0; rw [hb] at h1'
+      cases h0; cases h1'
+      exact ⟨hab.rows, fun c => select_tabEq hab c⟩
+
+set_option maxRecDepth 8000 in
+/-- non-vacuity with a NON-EMPTY earlier log: transaction 3 has first set column 1 of row 2 (one undo entry, table `tab3b`,
+    exact by construction), then its move of row 0 to the new key 3 is refused. -/
+example : let pre := runC 2 c0 (setup ++ [.begin, .txUpdate 3 0 (.idEq 2) [(1, 4)]])
+    pre.tables 0 = some tab3b ∧ (pre.txs 3).map (·.undo.length) = some 1 ∧ IdxExact tab3b ∧
+    otherKeys pre 0 + keyCount tab3b.btreeE ≤ 2 ∧ OneBt tab3b [(0, 3)] ∧
+    (txUpdateC 2 pre 3 0 (.idEq 0) [(0, 3)]).2 = .tooLarge := by
+  intro pre
+  exact ⟨by decide, by decide, idxExact_tab3b, by decide, ⟨by decide, by decide⟩, by decide⟩
 
 /-- EVERY state, every cap: a NON-transactional `update` that is refused at the b-tree entry cap (its internal
     transaction rolls back inside the call) leaves every table as it found it — the same rows, exact hash and
@@ -192,7 +263,7 @@ theorem failed_plain_update_changes_nothing (cap : Nat) (s : State) (t : Nat) (c
         unfold finishAutoC at hf
         rw [hr] at hf
         cases r0 <;> simp at hf
-    obtain ⟨T'', X, u, _, _, _, hothers, hroll, h1, h2, h3, h4, h5, h6, h7, h8, h9⟩ :=
+    obtain ⟨T'', X, u, _, _, _, hothers, _, hroll, h1, h2, h3, h4, h5, h6, h7, h8, h9⟩ :=
       failed_update_is_undone_by_rollback cap (begin s).1 (begin s).2 t cond upd T _ hbT hbx hex hwf
         (by rw [hbo]; exact hcap) hone hinner
     have hstate : (updateC cap s t cond upd).1 =
